@@ -93,6 +93,7 @@ impl A {
     async fn self_(&self, ctx: &Context<'_>) -> Option<A> { ran(ctx); Some(A) }
     async fn items(&self, ctx: &Context<'_>) -> Option<Vec<Option<i32>>> { ran(ctx); Some(vec![Some(1)]) }
     async fn echo(&self, ctx: &Context<'_>, x: Option<i32>) -> Option<i32> { ran(ctx); x }
+    async fn pair(&self, ctx: &Context<'_>, x: Option<i32>, y: Option<String>) -> Option<i32> { ran(ctx); let _ = y; x }
 }
 #[Object]
 impl B {
